@@ -78,3 +78,30 @@ Require RV.Gen.Sites RV.Model.SiteMap RV.Proofs.SitesLits.
 Theorem C03_literals_reviewed : RV.Model.SiteMap.literals_ok RV.Model.SiteMap.files_C03.
 Proof. apply RV.Proofs.SitesLits.literals_okb_sound. vm_compute. reflexivity. Qed.
 Print Assumptions C03_literals_reviewed.
+
+(* ---- what main prints, AS TRANSLATED: the one statement of the client's response loop that turns the midpoint
+   into the (seconds, nanoseconds) handed to chrono. Classic: the instant printed is exactly the signed midpoint
+   (microseconds) — s * 10^9 + ns = midpoint * 1000 with ns < 10^9, no truncation by the u32 cast, no underflow
+   of the checked subtraction; IETF: the midpoint in seconds, zero nanoseconds. ---- *)
+Require Import RV.Proofs.CodeClientOut.
+From Coq Require Import NArith.
+
+Theorem C03_translated_printed_time_is_model :
+  forall v m,
+  RV.Gen.Code.gen_client_midpoint_to_time v m
+  = Ok (match v with
+        | Google => ((m / 1000000)%N, ((m mod 1000000) * 1000)%N)
+        | RfcDraft13 => (m, 0%N)
+        end).
+Proof. exact gen_client_midpoint_to_time_model. Qed.
+Print Assumptions C03_translated_printed_time_is_model.
+
+Theorem C03_translated_printed_time_is_the_midpoint :
+  forall v m s ns,
+  RV.Gen.Code.gen_client_midpoint_to_time v m = Ok (s, ns) ->
+  match v with
+  | Google => (s * 1000000000 + ns = m * 1000)%N /\ (ns < 1000000000)%N
+  | RfcDraft13 => s = m /\ ns = 0%N
+  end.
+Proof. exact gen_client_time_is_the_midpoint. Qed.
+Print Assumptions C03_translated_printed_time_is_the_midpoint.
